@@ -20,7 +20,7 @@ PROP = "C18"
 TARGETS = ["Tx3Proofs.C11"]
 THEOREMS = ["Tx3.sortBy_perm_invariant", "Tx3.sorted_perm_eq", "Tx3.Wire.C18_directive_order_independent", "Tx3.Wire.C18_encoding_function"]
 RULE = (
-    "cases = programs: every /repo/examples/*.tx3 that lowers, plus generated programs (transfer shapes, min_utxo "
+    "cases = programs: every /repo/examples/*.tx3 and every coverage-driven corpus program (frontp::extra_corpus) that lowers, plus generated programs (transfer shapes, min_utxo "
     "shapes, 1-3 cardano::withdrawal directives with three fields each and a treasury donation, alike-named programs "
     "that give one policy / record / transaction name different contents); each lowered and "
     "encoded 20x in-process, 3x in fresh processes for a quarter of them, TII emitted 3x by the tx3c binary with its "
